@@ -158,7 +158,9 @@ pub fn builtin_file_read(
         effect: NativeEffect::FileRead {
             resource_id,
             offset: offset as u64,
-            length: length as usize,
+            // A read can return at most one binary's worth of bytes; the backend allocates
+            // a buffer of the requested length, so an absurd length must not reach it.
+            length: (length as usize).min(quiver_core::MAX_BINARY_SIZE),
         },
     }))
 }
